@@ -5,6 +5,7 @@ import (
 	"fmt"
 	"os"
 	"path/filepath"
+	"regexp"
 	"sort"
 	"strings"
 
@@ -297,7 +298,7 @@ func (p *c08) Run(c fw.Case, r *fw.Rec) {
 			if strings.Join(sa, "\n") == strings.Join(sb, "\n") {
 				what = "error-list-order-differs"
 			}
-			r.Fail(what+":"+kind, "compilation %d (file order %v) reports a different error list:\n--- compilation 0 ---\n%s\n--- compilation %d ---\n%s", j, o, clipS(firstErrs, 1200), j, clipS(errs, 1200))
+			r.Fail(what+":"+c08ErrSig(sa, sb, firstErrs, errs), "compilation %d (file order %v) reports a different error list:\n--- compilation 0 ---\n%s\n--- compilation %d ---\n%s", j, o, clipS(firstErrs, 1200), j, clipS(errs, 1200))
 			return
 		}
 	}
@@ -335,4 +336,17 @@ func (p *c08) PostRun(env *fw.Env, d *fw.Driver) {
 		}
 	}
 	d.AddAgg(agg)
+}
+
+var reLabelName = regexp.MustCompile(`label-[^-]+-`)
+
+// c08ErrSig names the first message that sits at a different place in the two lists (names removed).
+func c08ErrSig(sortedA, sortedB []string, a, b string) string {
+	la, lb := strings.Split(a, "\n"), strings.Split(b, "\n")
+	for i := 0; i < len(la) && i < len(lb); i++ {
+		if la[i] != lb[i] {
+			return reLabelName.ReplaceAllString(errSig(la[i]), "label-X-")
+		}
+	}
+	return "length"
 }
